@@ -495,9 +495,47 @@ def check_case(spec, acc):
         shutil.rmtree(work, ignore_errors=True)
 
 
+def check_history(spec, acc):
+    """Family D: the SAME path is written and parsed several times in one process with different tables (a re-export
+    of the file): each parse must reflect the file as it is now."""
+    work = _scratch()
+    from mc.datasets import set_chunks, DEFAULT_CHUNKS
+
+    try:
+        last = None
+        for step, sub in enumerate(spec["history"]):
+            s = full(sub)
+            path, expect = write(sub, work)
+            try:
+                ds = parse(path, s)
+                obs = observe(ds)
+            except BaseException as e:
+                report(acc, Violation("reparse-raises:" + exc_signature(e), f"parse {step + 1} of a rewritten file raised "
+                                      f"{classify_exception(e)[1]}", spec), size=10 + step)
+                return "raised", None
+            finally:
+                set_chunks(**{k: DEFAULT_CHUNKS[k] for k in ("CHUNK_SIZE_COLUMNS_FOR_DROP_COLUMNS",
+                                                             "CHUNK_SIZE_ROWS_FOR_DROP_COLUMNS")})
+            bad = compare(expect, obs, s["nrows"])
+            for sig, msg in bad[:2]:
+                report(acc, Violation("stale-after-rewrite:" + sig, f"parse {step + 1} of the same path after the file was "
+                                      f"rewritten with another table: {msg}", spec), size=10 + step)
+            last = (obs["features"], obs["spectrum"], obs["rows"])
+            if bad:
+                return "result_wrong", last
+        return "result", last
+    finally:
+        shutil.rmtree(work, ignore_errors=True)
+
+
 def worker(item):
     acc = Acc()
     for spec in item:
+        if "history" in spec:
+            cls, outcome = check_history(spec, acc)
+            acc.case(key=repr(spec), nontrivial=True, outcome=repr(outcome), cls=cls, sample=spec if acc.evaluations % 31 == 3 else None)
+            acc.count("family_D")
+            continue
         cls, outcome = check_case(spec, acc)
         acc.case(key=tuple(sorted((k, str(v)) for k, v in spec.items())), nontrivial=nontrivial(spec),
                  outcome=repr(outcome), cls=cls,
@@ -646,6 +684,35 @@ def family_a():
     return out
 
 
+def family_d():
+    """Ordered pairs / triples of tables with different column sets written to one path."""
+    base = [{}, {"nfeat": 5}, {"nfeat": 1}, {"optional": "levels"}, {"ids": 4}, {"order": "rev", "nfeat": 4}, {"nan": "first", "nfeat": 5}]
+    out = []
+    for fmt in ("pin", "parquet"):
+        for a, b in itertools.permutations(base, 2):
+            out.append({"family": "D", "history": [dict(a, fmt=fmt) if fmt != "pin" else a, dict(b, fmt=fmt) if fmt != "pin" else b]})
+    for a, b, c in itertools.permutations(base[:4], 3):
+        out.append({"family": "D", "history": [a, b, c]})
+    return out
+
+
+def family_e():
+    """Several row-scan chunks x missing values in the column slice that also carries the identifier columns."""
+    out = []
+    for nfeat in range(1, 9):
+        for cc in (2, 3, 5, 7):
+            for rc in (1, 3):
+                for nan in ("last", "firstlast", "two", "allrows", "first"):
+                    for ids in (2, 4):
+                        for fmt in ("pin", "parquet"):
+                            spec = {"family": "E", "nfeat": nfeat, "colchunk": cc, "rowchunk": rc, "nan": nan, "ids": ids}
+                            if fmt != "pin":
+                                spec["fmt"] = fmt
+                            if valid(spec):
+                                out.append(spec)
+    return out
+
+
 def family_b(maxdev):
     out = [{}]
     for k in range(1, maxdev + 1):
@@ -663,7 +730,8 @@ def run(ctx):
     maxdev = 2 if ctx.quick else 3
     a = family_a()
     b = family_b(maxdev)
-    cases = a + b
+    d, e = family_d(), family_e()
+    cases = a + b + d + e
     cases = ctx.rotate(cases)
     k = 40
     items = [cases[i:i + k] for i in range(0, len(cases), k)]
@@ -690,6 +758,7 @@ def run(ctx):
                                       "formats": ["pin", "parquet"], "missing": ["none", "first+last column"],
                                       "cases": len(a)},
                          "family_B": {"deviation_values": len(DEVIATIONS), "max_deviations": maxdev, "cases": len(b)},
+                         "family_D_rewrite_histories": len(d), "family_E_rowchunk_x_missing": len(e),
                          "family_C": {"tables": len(e2), "preemption_bounds": [b for _, b in e2],
                                       "granularity": "entry"}}
 
@@ -725,6 +794,9 @@ def replay(case):
                                         "sequential parse", case))
         finally:
             shutil.rmtree(work, ignore_errors=True)
+        return acc.violations
+    if "history" in case:
+        check_history(case, acc)
         return acc.violations
     check_case(case, acc)
     return acc.violations
